@@ -614,6 +614,26 @@ func TestC17Hist(t *testing.T) {
 				c.Texts = append(c.Texts, m.Render(gen.GenJournal(t, p, pools, gen.JournalOpts{MinEntries: 1, MaxEntries: 3, Directives: true, Tx: gen.TxOpts{MaxPostings: 3, MaxScale: 3, MaxDigits: 5}})).Text)
 			}
 		}
+		// derived texts: the same text with its tail, head or a middle line
+		// removed, so that a delta has to express pure removals and shifts
+		for i := 0; i < nt; i++ {
+			lines := strings.SplitAfter(c.Texts[i], "\n")
+			if len(lines) < 3 {
+				continue
+			}
+			switch rapid.IntRange(0, 3).Draw(t, "derive") {
+			case 0:
+				k := rapid.IntRange(1, len(lines)-1).Draw(t, "keep")
+				c.Texts = append(c.Texts, strings.Join(lines[:k], ""))
+			case 1:
+				k := rapid.IntRange(1, len(lines)-1).Draw(t, "drop")
+				c.Texts = append(c.Texts, strings.Join(lines[k:], ""))
+			case 2:
+				k := rapid.IntRange(0, len(lines)-1).Draw(t, "cut")
+				c.Texts = append(c.Texts, strings.Join(lines[:k], "")+strings.Join(lines[k+1:], ""))
+			}
+		}
+		nt = len(c.Texts)
 		ndocs := rapid.IntRange(1, 3).Draw(t, "ndocs")
 		steps := rapid.IntRange(3, 10).Draw(t, "steps")
 		for s := 0; s < steps; s++ {
